@@ -122,7 +122,7 @@ def run(tier, work):
                    "RBS type %s: emitted %s, the model says %s" % (s, got, want), {"input/in.rbs": json.dumps(ast_for([c]), indent=1)})
             continue
         kwargs = ["%s: 1" % k for k in sorted(c["s"]["rk"])]
-        rows = ["o = VfRbs%d.new" % i] + T.arity_rows("o", "m", kwargs)
+        rows = ["o = VfRbs%d.new" % i] + T.arity_rows("o", "m", kwargs, m[0]["arguments"])
         jobs.append({"cfg": cfg, "files": {"t.rb": "\n".join(rows) + "\n"}, "args": ["t.rb"]})
         meta.append(i)
     wr = C.Runner(work, "worker")
